@@ -100,3 +100,5 @@ def correspond(seed, tier):
 TRUSTED = ["lean/PystogVerif/Model/Stog.lean is a hand-written model of StoG.add_dataset / merge_data (modelled, not verified): tied to "
            "/repo only by the step-by-step correspondence run (bit-exact so far)",
            "np.around(x,d) modelled as rint(x*10^d)/10^d; sorted() modelled as a stable merge sort"]
+
+DRIVERS = ["drvm"]
